@@ -115,7 +115,7 @@ PROPS = {
     ),
     "C01": dict(
         level="exploration",
-        specs=[],
+        specs=["specs.c03_route"],
         bounded=["bounded.c01_delivery"],
     ),
     "C17": dict(
